@@ -73,5 +73,6 @@ class EFLRSetsDict(defaultdict):
     def get_all_items_for_set_type(self, eflr_set_type: type[EFLRSet]) -> Generator[AnyEFLRItem, None, None]:
         """Retrieve all EFLRItem instances registered for all instances of given EFLRSet subclass."""
 
-        for value in self[eflr_set_type].values():
+        # (a plain look-up: indexing the defaultdict would register the set type, and with it a place in the order of sets)
+        for value in self.get(eflr_set_type, {}).values():
             yield from value.get_all_eflr_items()
